@@ -162,6 +162,31 @@ def canon(v):
     return v
 
 
+def uncanon(v):
+    """inverse of canon (replay files)"""
+    if isinstance(v, list):
+        return [uncanon(x) for x in v]
+    if isinstance(v, dict):
+        if set(v) == {"float"}:
+            return float.fromhex(v["float"])
+        if set(v) == {"bytes"}:
+            return bytes.fromhex(v["bytes"])
+        if set(v) == {"tuple"}:
+            return tuple(uncanon(x) for x in v["tuple"])
+        if set(v) == {"dict"}:
+            return {uncanon(k): uncanon(x) for k, x in v["dict"]}
+        if set(v) == {"proxy", "items"}:
+            return Proxy(v["proxy"], uncanon(v["items"]))
+        if set(v) == {"digest"}:
+            return Digest(bytes.fromhex(v["digest"][0]), bytes.fromhex(v["digest"][1]), v["digest"][2])
+        if set(v) == {"other"}:
+            return Other(v["other"])
+        if set(v) == {"raw"}:
+            return Raw(v["raw"])
+        raise Broken("uncanon: %r" % (v,))
+    return v
+
+
 def digest_of(obj):
     return hashlib.sha1(json.dumps(canon(obj), sort_keys=True, default=str).encode()).hexdigest()
 
